@@ -264,7 +264,24 @@ pub fn ev_li_parse(log: &mut Log, input: &[u8]) {
         },
         Err(_) => true,
     };
-    log.ev(json!({"op":"li_parse","in": bytes(input),"out": out,"st": st,"ser": ser,"canon": canon,"fromstr_same": fromstr_same}));
+    // C13: what LanguageIdentifier accepts, Locale accepts with an identical id, no extensions and the same text
+    let as_locale = match &r {
+        Ok(Ok(v)) => match guard(|| Locale::from_bytes(input)) {
+            Ok(Ok(l)) => if &l.id == v && l.extensions.is_empty() && l.to_string() == v.to_string() { "same" } else { "differs" },
+            Ok(Err(_)) => "rejected",
+            Err(_) => "panic",
+        },
+        _ => "na",
+    };
+    // the same call once more, right away: a pure function gives the same answer (a memo or scratch buffer would show)
+    let again = match (guard(|| LanguageIdentifier::from_bytes(input)), &r) {
+        (Ok(Ok(a)), Ok(Ok(b2))) => &a == b2 && a.to_string() == b2.to_string(),
+        (Ok(Err(a)), Ok(Err(b2))) => &a == b2,
+        (Err(_), Err(_)) => true,
+        _ => false,
+    };
+    log.ev(json!({"op":"li_parse","in": bytes(input),"out": out,"st": st,"ser": ser,"canon": canon,"fromstr_same": fromstr_same,
+                  "as_locale": as_locale, "again": again}));
 }
 
 pub fn ev_loc_parse(log: &mut Log, input: &[u8]) -> Option<Locale> {
@@ -288,7 +305,13 @@ pub fn ev_loc_parse(log: &mut Log, input: &[u8]) -> Option<Locale> {
         },
         Err(_) => true,
     };
-    log.ev(json!({"op":"loc_parse","in": bytes(input),"out": out,"st": st,"ser": ser,"canon": canon,"fromstr_same": fromstr_same}));
+    let again = match (guard(|| Locale::from_bytes(input)), &r) {
+        (Ok(Ok(a)), Ok(Ok(b2))) => &a == b2 && a.to_string() == b2.to_string(),
+        (Ok(Err(_)), Ok(Err(_))) => true,
+        (Err(_), Err(_)) => true,
+        _ => false,
+    };
+    log.ev(json!({"op":"loc_parse","in": bytes(input),"out": out,"st": st,"ser": ser,"canon": canon,"fromstr_same": fromstr_same, "again": again}));
     match r { Ok(Ok(v)) => Some(v), _ => None }
 }
 
@@ -565,6 +588,22 @@ fn drive_parse(r: &mut Rng, n: usize, log: &mut Log) {
         }
         ev_li_parse(log, &input);
         ev_loc_parse(log, &input);
+        // a near neighbour of the input, straight after it: whatever the library remembers of the last call (a memo of
+        // recent inputs keyed by a prefix / a padded buffer, a scratch buffer) must not leak into this one
+        if r.chance(1, 3) {
+            let mut nb = input.clone();
+            match r.below(7) {
+                0 => nb.push(0),
+                1 => nb.extend_from_slice(&[0, 0, 0]),
+                2 => nb.push(b' '),
+                3 => { nb.pop(); }
+                4 => nb.insert(0, 0),
+                5 => nb.push(if r.chance(1, 2) { b'-' } else { b'_' }),
+                _ => { if let Some(l) = nb.last_mut() { *l = 0; } }
+            }
+            ev_li_parse(log, &nb);
+            ev_loc_parse(log, &nb);
+        }
         // the extension part on its own, through ExtensionsMap::from_bytes
         if let Some(p) = input.windows(3).position(|w| (w[0] == b'-' || w[0] == b'_') && (w[2] == b'-' || w[2] == b'_')) {
             let start = if r.chance(1, 2) { p } else { p + 1 };
@@ -886,10 +925,33 @@ fn drive_likely(r: &mut Rng, n: usize, log: &mut Log, data: &str) {
         }
     }
     langs.sort(); langs.dedup(); scripts.sort(); scripts.dedup(); regions.sort(); regions.dedup();
+    // regions / scripts the data keys with each language: the neighbours a remembered lookup would be confused with
+    let mut keyed: std::collections::HashMap<String, (Vec<String>, Vec<String>)> = Default::default();
+    for (k, _) in v["supplemental"]["likelySubtags"].as_object().expect("object") {
+        let ps: Vec<&str> = k.split('-').collect();
+        let e = keyed.entry(ps[0].to_string()).or_default();
+        for p in &ps[1..] { if p.len() == 4 { e.0.push(p.to_string()); } else { e.1.push(p.to_string()); } }
+    }
+    const RTL_MULTI: &[&str] = &["pa", "ha", "ms", "az", "uz", "sd", "ks", "ku", "ff", "bm", "bal", "ar", "fa", "he", "ur", "ug"];
+    let mut burst: Vec<(String, String, String)> = Vec::new();
     for _ in 0..n {
-        let l = if r.chance(1, 6) { "und".to_string() } else { r.pick(&langs).clone() };
-        let s = if r.chance(1, 2) { String::new() } else { r.pick(&scripts).clone() };
-        let rg = if r.chance(1, 2) { String::new() } else { r.pick(&regions).clone() };
+        // bursts: several questions about ONE language in a row (bare, with each keyed region / script), so that a call
+        // is preceded by its nearest neighbours
+        if burst.is_empty() && r.chance(1, 4) {
+            let l = if r.chance(1, 2) { r.pick(RTL_MULTI).to_string() } else { r.pick(&langs).clone() };
+            let (ks, kr) = keyed.get(&l).cloned().unwrap_or_default();
+            for _ in 0..(2 + r.below(4)) {
+                let s = if ks.is_empty() || r.chance(2, 3) { String::new() } else { r.pick(&ks).clone() };
+                let rg = if kr.is_empty() || r.chance(1, 2) { String::new() } else { r.pick(&kr).clone() };
+                burst.push((l.clone(), s, rg));
+            }
+        }
+        let (l, s, rg) = match burst.pop() {
+            Some(t) => t,
+            None => (if r.chance(1, 6) { "und".to_string() } else { r.pick(&langs).clone() },
+                     if r.chance(1, 2) { String::new() } else { r.pick(&scripts).clone() },
+                     if r.chance(1, 2) { String::new() } else { r.pick(&regions).clone() }),
+        };
         #[cfg(feature = "likelysubtags")]
         likely_event(log, l.as_bytes(), s.as_bytes(), rg.as_bytes());
         dir_event(log, l.as_bytes(), s.as_bytes(), rg.as_bytes());
@@ -900,8 +962,8 @@ fn drive_likely(r: &mut Rng, n: usize, log: &mut Log, data: &str) {
 /// that is where range flags, scripts and regions interact
 fn drive_match(r: &mut Rng, n: usize, log: &mut Log) {
     const LANGS: &[&str] = &["en", "sr", "zh", "und", "pa", "ar", "uz"];
-    const SCRIPTS: &[&str] = &["", "Latn", "Cyrl", "Hans", "Hant", "Arab"];
-    const REGIONS: &[&str] = &["", "US", "RS", "TW", "PK", "419"];
+    const SCRIPTS: &[&str] = &["", "Latn", "Cyrl", "Hans", "Hant", "Arab", "Lato"];
+    const REGIONS: &[&str] = &["", "US", "RS", "TW", "PK", "419", "001", "005", "014", "015", "150", "154", "UT"];
     const VARS: &[&str] = &["", "valencia", "1996-valencia"];
     const EXTS: &[&str] = &["", "-u-ca-buddhist", "-t-en-h0-hybrid", "-x-foo"];
     let mk = |r: &mut Rng, lang: &str| -> Locale {
